@@ -19,7 +19,7 @@ EXTENDS Glob, Integers
 Upper(c) == CASE c = "a" -> "A" [] c = "b" -> "B" [] c = "c" -> "C" [] c = "U" -> "V" [] OTHER -> c
 Lower(c) == CASE c = "A" -> "a" [] c = "B" -> "b" [] c = "C" -> "c" [] c = "V" -> "U" [] OTHER -> c
 
-MatchSub(p, v, i, j) == Match(p, SubSeq(v, i, j), FALSE, FALSE)      \* does p match v[i..j] (whole)
+MatchSub(p, v, i, j) == Match(p, SubSeq(v, i, j), TRUE, FALSE)       \* does p match v[i..j] (whole); extglob tokens, when present, are groups
 Min(S) == CHOOSE x \in S : \A y \in S : x <= y
 Max(S) == CHOOSE x \in S : \A y \in S : x >= y
 
